@@ -60,6 +60,8 @@ Ltac q_step :=
       match type of V with
       | context [if ?b then _ else _] =>
           tryif constr_eq a b then fail else
+          let ty := type of a in
+          lazymatch ty with bool => idtac | _ => fail end;
           (assert (a = b) by (destruct a, b; try reflexivity; exfalso; vm_compute in V; discriminate V); subst b; clear V)
       end
   end.
@@ -69,6 +71,15 @@ Ltac inj_all H :=
          | E : tcs _ = tcs _ |- _ => apply tcs_inj in E
          end;
   try q_step.
+
+Lemma cons_inj : forall A (x y : A) l m, x :: l = y :: m -> x = y /\ l = m.
+Proof. intros A x y l m H. injection H. auto. Qed.
+Lemma TPosN_inj : forall a b, TPosN a = TPosN b -> a = b.
+Proof. intros a b H. injection H. auto. Qed.
+Lemma TPosN_tcs_inj : forall a b, TPosN (tcs a) = TPosN (tcs b) -> a = b.
+Proof. intros a b H. apply TPosN_inj in H. apply tcs_inj. exact H. Qed.
+(* peel a list equation element by element without ever reducing the elements *)
+Ltac peel H := repeat (let E := fresh "E" in apply cons_inj in H; destruct H as [E H]).
 
 (* per-kind statements *)
 Theorem tx_hash_injective_invoke_v0 : forall ch q1 a1 b1 c1 d1 q2 a2 b2 c2 d2,
@@ -93,11 +104,14 @@ Proof.
   intros until pf2. intros O1 O2. cbn [tx_hash app]. intros H.
   assert (E : q1 = q2 /\ s1 = s2 /\ n1 = n2 /\ c1 = c2 /\ ad1 = ad2 /\ cd1 = cd2 /\
               match pf1 with [] => [] | _ => [TPosN (tcs pf1)] end = match pf2 with [] => [] | _ => [TPosN (tcs pf2)] end).
-  { inj_all H. assert (c1 = c2) by (apply v3c_inj; auto). repeat split; auto. }
+  { apply TPosN_inj in H. peel H.
+    apply ver_q in E0; [|apply small_vers]. apply TC_inj in E1. apply TPosN_inj in E3. apply TC_inj in E5.
+    apply TC_inj in E6. apply TPosN_tcs_inj in E7. apply TPosN_tcs_inj in E8.
+    assert (c1 = c2) by (apply v3c_inj; auto). repeat split; auto. }
   destruct E as (-> & -> & -> & -> & -> & -> & F).
   assert (pf1 = pf2).
   { destruct pf1 as [|x1 p1], pf2 as [|x2 p2]; try discriminate; auto.
-    injection F as F. apply tcs_inj in F. exact F. }
+    apply cons_inj in F. destruct F as [F _]. apply TPosN_tcs_inj in F. exact F. }
   subst. reflexivity.
 Qed.
 
@@ -120,7 +134,9 @@ Theorem tx_hash_injective_declare_v3 : forall ch q1 s1 n1 c1 ad1 h1 k1 q2 s2 n2 
   tx_hash ch (DeclareV3 q1 s1 n1 c1 ad1 h1 k1) = tx_hash ch (DeclareV3 q2 s2 n2 c2 ad2 h2 k2) ->
   DeclareV3 q1 s1 n1 c1 ad1 h1 k1 = DeclareV3 q2 s2 n2 c2 ad2 h2 k2.
 Proof.
-  intros until k2. intros O1 O2. cbn [tx_hash]. intros H. inj_all H.
+  intros until k2. intros O1 O2. cbn [tx_hash]. intros H. apply TPosN_inj in H. peel H.
+  apply ver_q in E0; [|apply small_vers]. apply TC_inj in E1. apply TPosN_inj in E3. apply TC_inj in E5.
+  apply TC_inj in E6. apply TPosN_tcs_inj in E7. apply TC_inj in E8. apply TC_inj in E9.
   assert (c1 = c2) by (apply v3c_inj; auto). subst. reflexivity.
 Qed.
 
@@ -136,7 +152,9 @@ Theorem tx_hash_injective_deploy_account_v3 : forall ch q1 a1 n1 c1 ct1 h1 s1 q2
   tx_hash ch (DeployAccountV3 q1 a1 n1 c1 ct1 h1 s1) = tx_hash ch (DeployAccountV3 q2 a2 n2 c2 ct2 h2 s2) ->
   DeployAccountV3 q1 a1 n1 c1 ct1 h1 s1 = DeployAccountV3 q2 a2 n2 c2 ct2 h2 s2.
 Proof.
-  intros until s2. intros O1 O2. cbn [tx_hash]. intros H. inj_all H.
+  intros until s2. intros O1 O2. cbn [tx_hash]. intros H. apply TPosN_inj in H. peel H.
+  apply ver_q in E0; [|apply small_vers]. apply TC_inj in E1. apply TPosN_inj in E3. apply TC_inj in E5.
+  apply TC_inj in E6. apply TPosN_tcs_inj in E7. apply TC_inj in E8. apply TC_inj in E9.
   assert (c1 = c2) by (apply v3c_inj; auto). subst. reflexivity.
 Qed.
 
